@@ -304,6 +304,61 @@ def xor_extra_suite(res, tier, seed):
     for m in bad[:2]:
         res.violations.append(dict(case=repr(dict(kind="xor-standard-classes")), observed=m, what="re-parsing a parse result does not return an equal value: " + m))
 
+
+def dataclass_reparse_case(i_seed):
+    """data classes: an instance obtained from a successful parse, given again to its class (type_transform, __from__, as a field
+    value of another class, as a list element), comes back equal, field by field with the same classes"""
+    import utype
+    from utype.utils.transform import type_transform
+    from . import dyn
+    warnings.simplefilter("ignore")
+    rng = random.Random(i_seed)
+    GOOD = {"int": [1, "2", 3.0], "str": ["a", 5], "PositiveInt": [1, "5"], "List[int]": [[1, "2"], []], "Dict[str, int]": [{"a": "1"}, {}],
+            "Tuple[int, str]": [(1, "a"), ["2", 3]], "Union[int, str]": [1, "a"], "bool": [True, "false"], "float": [1.5, "2"],
+            "Optional[int]": [None, "3"], "Set[int]": [["1", 1, 2], []], "Decimal": ["1.50", 2]}
+    name = dyn.fresh("Rp")
+    base = rng.choice(["Schema", "DataClass"])
+    fields = [("f%d" % i, rng.choice(list(GOOD))) for i in range(rng.randint(1, 4))]
+    src = "class %s(%s):\n" % (name, base) + "".join("    %s: %s\n" % f for f in fields)
+    src += "class %sOut(Schema):\n    one: %s\n    many: List[%s] = Field(default_factory=list)\n" % (name, name, name)
+    try:
+        dyn.declare(src)
+    except Exception:
+        return None
+    K, Out = dyn.get(name), dyn.get(name + "Out")
+    data = {n: rng.choice(GOOD[t]) for n, t in fields}
+    try:
+        inst = K.__from__(data)
+    except Exception:
+        return ("rejected",)
+
+    def vals(x):
+        return exact_repr(core.freeze(x))
+    want = vals(inst)
+    # (Cls.__from__ takes input data, not instances: parsing "with the same type" is type_transform / the class used as an annotation)
+    for how, f in (("type_transform(inst, Cls)", lambda: type_transform(inst, K)),
+                   ("Outer(one=inst).one", lambda: Out(one=inst).one), ("Outer(one=inst, many=[inst]).many[0]", lambda: Out(one=inst, many=[inst]).many[0])):
+        try:
+            r = f()
+        except Exception as e:
+            return "%s raised %s: %s for an instance obtained from %r\n%s" % (how, type(e).__name__, str(e)[:150], data, src)
+        if vals(r) != want:
+            return "%s gives %s, the instance was %s\n%s" % (how, vals(r), want, src)
+    return ("idempotent",)
+
+
+def dataclass_reparse_suite(res, tier, seed):
+    n = 1200 if tier == "quick" else 20000
+    outs = core.pool_map(dataclass_reparse_case, [seed * 9000011 + i for i in range(n)])
+    bad = [o for o in outs if isinstance(o, str)]
+    res.add_suite("dataclass-reparse", n, sum(1 for o in outs if o == ("idempotent",)),
+                  [dict(cls="class K(Schema): f0: List[int]; f1: Decimal", data={"f0": [1, "2"], "f1": "1.50"}, expect="the instance, three ways")],
+                  "Schema / DataClass classes of 1-4 typed fields; an instance from a successful parse is parsed again through "
+                  "type_transform, a field of another class and a list element: equal field by field with the same classes",
+                  dict(failures=len(bad)))
+    for m in bad[:2]:
+        res.violations.append(dict(case=repr(dict(kind="dataclass-reparse")), observed=m, what="re-parsing a data-class instance does not return an equal instance: " + m.split("\n")[0]))
+
 def carried_out(c):
     """the listed finding's second form: the carry left an integer part with more digits than the bound allows (or the bound
     is 0), so no rounding of decimals can help and a second application can only raise"""
@@ -348,6 +403,7 @@ def main(tier, seed):
     lax_suite(res, tier, seed)
     idem_suite(res, tier, seed)
     xor_extra_suite(res, tier, seed)
+    dataclass_reparse_suite(res, tier, seed)
     rng = random.Random(seed * 29 + 5)
     n = 3000 if tier == "quick" else 60000
     cases = [parsesuite.gen_case(rng) if i % 2 else parsesuite.gen_union_case(rng) for i in range(n)]
